@@ -10,6 +10,7 @@ REPO = "/repo"
 AX2COQ = os.path.join(ROOT, "tools/ax2coq/target/release/ax2coq")
 AXM = os.path.join(ROOT, "model/_build/axm")
 NPROC = 16
+COQC_FILE_TIMEOUT = 900
 ENV = dict(os.environ, CARGO_NET_OFFLINE="true")
 
 sys.path.insert(0, os.path.join(ROOT, "gen_cases"))
@@ -262,8 +263,31 @@ def write_coqproject():
 
 def coq_make(targets, timeout=3000):
     write_coqproject()
-    rc, out = sh(["make", "-j%d" % NPROC] + targets, cwd=COQ, timeout=timeout)
+    # every file is compiled under its own time limit: a proof script that diverges on changed code must end the
+    # build as a failed obligation (the longest file of the unchanged tree takes about 90 s alone)
+    rc, out = sh(["make", "-j%d" % NPROC, "COQC=timeout %d coqc" % COQC_FILE_TIMEOUT] + targets, cwd=COQ, timeout=timeout)
     return rc == 0, out
+
+
+def coqchk(prop, timeout=2400):
+    """independent re-check of the property's compiled file and everything it depends on (thorough tier)"""
+    rc, out = sh(["coqchk", "-silent", "-o", "-Q", "theories", "AxV", "-Q", "gen", "AxG", "AxV.Properties.%s" % prop],
+                 cwd=COQ, timeout=timeout)
+    info = dict(exit=rc, axioms=[], other=[])
+    sect = None
+    for l in out.splitlines():
+        t = l.strip()
+        if t.startswith("* "):
+            sect = t[2:]
+            if sect.endswith("<none>"):
+                sect = None
+            continue
+        if sect and t:
+            if sect.startswith("Axioms"):
+                info["axioms"].append(t)
+            elif not sect.startswith("Theory"):
+                info["other"].append("%s %s" % (sect, t))
+    return info, out
 
 
 def coq_error_summary(out):
@@ -336,6 +360,17 @@ def count_obligations(prop):
             per[f] = k
         n += k
     return n, per, files
+
+
+def discharged_count(per_file):
+    """obligations in the files of the cone whose compiled file is up to date (what still checks after a failure)"""
+    n = 0
+    for f, k in per_file.items():
+        v = os.path.join(COQ, f)
+        vo = v[:-2] + ".vo"
+        if os.path.exists(vo) and os.path.getmtime(vo) >= os.path.getmtime(v):
+            n += k
+    return max(n, 1)
 
 
 def build_harness(profile):
@@ -568,6 +603,12 @@ def run_check(prop, tier, seed, replay=None):
         bad_ax = [a for a in axioms if a not in AXIOM_ALLOW]
         if not ok2 or bad_ax:
             broken.append(("assumptions", "axioms: %s" % bad_ax))
+    if ok and tier == "thorough":
+        ci, cout = coqchk(prop)
+        notes["coqchk"] = ci
+        bad = [a for a in ci["axioms"] if a.split(".")[-1] not in AXIOM_ALLOW and a not in AXIOM_ALLOW]
+        if ci["exit"] != 0 or bad or ci["other"]:
+            broken.append(("coqchk", "exit %s, axioms %s, %s" % (ci["exit"], bad, "; ".join(ci["other"])[:300] or cout[-300:])))
     nobl, per_file, cone = count_obligations(prop)
     # 3. tie + 4. spec comparison (property-specific)
     res = props.correspondence(prop, tier, seed, broken_so_far=bool(broken))
@@ -599,7 +640,7 @@ def run_check(prop, tier, seed, replay=None):
             nviol += 1
     cov = dict(
         obligations=nobl,
-        discharged=nobl if proofs_ok else 0,
+        discharged=nobl if proofs_ok else discharged_count(per_file),
         checker_cmd="make -C coq -j16 theories/Properties/%s.vo  (coq_makefile, full .vo); coqc Properties/%s.v for Print Assumptions" % (prop, prop),
         trusted_base=TRUSTED_BASE + res.get("trusted", []),
         obligations_per_file=per_file,
